@@ -58,6 +58,12 @@ func NewDutyGater(ctx context.Context, eth2Cl eth2wrap.Client, opts ...func(*dut
 		}
 
 		currentSlot := o.nowFunc().Sub(genesisTime) / slotDuration
+		if currentSlot < 0 {
+			// Before genesis the current slot is the genesis slot, a negative value would wrap around
+			// when converted to unsigned below and allow duties of any future slot.
+			currentSlot = 0
+		}
+
 		currentEpoch := uint64(currentSlot) / slotsPerEpoch
 
 		dutyEpoch := duty.Slot / slotsPerEpoch
